@@ -12,7 +12,7 @@ import c18_threads
 
 PROPERTY = 'C18'
 MANIFEST = {
- 'level_text': 'Lean 4 theorems, kernel-checked, in two layers. (0) CPython heapq as used by the scheduler: heappush and heapify establish/keep the heap invariant, heappop returns an entry of minimal due time and leaves a heap that with it is a permutation of the old one, hence the choice of the heap is always a pick the scheduler model accepts. (1) A model of supybot.schedule.Schedule, for every sequence of addEvent/addPeriodicEvent/removeEvent/rescheduleEvent/run/reset calls and clock advances, every program of event functions that themselves add, remove, reschedule, add periodic events or raise while running, and every way the heap resolves ties: the name invariant (heap names = keys of events, no name twice) holds in every reachable state and therefore run() never raises; registrations = fired + removed + discarded + still scheduled as multisets with pairwise distinct registration ids (each event fires at most once, a removed event never fires, everything that fired was registered); nothing fires before its due time has passed, each iteration fires an entry of minimal due time, and when run() returns nothing due is left; a fired event carries the function and arguments of its registration, also after rescheduleEvent (repaired: it dropped them), which moves exactly that entry; a raising function ends only its own body; a periodic wrapper with occurrences left re-registers itself whether or not its function raised; threads: the placement of the lock is extracted and for every interleaving of critical sections (addEvent, removeEvent, iterations of run(), reset, by any threads) the invariant holds at every lock release, run() never raises and never fires early, registrations stay exactly-once (after three repairs of the lock placement). The driver loop: drivers.run() removes a driver whose run() raises; over every history of API calls and rounds of drivers.run() the Schedule driver is never removed and each round leaves nothing due. (2) A model of the Scheduler plugin on top (event table with its str(id)/name keys and the int-vs-str naming discipline, add/remind/remove/repeat/list, _flush and the pickle, die — repaired: it now takes the saved events out of the schedule —, _restoreEvents with kept ids and the already-scheduled test, load/unload/reload/restart, other plugins scheduling, run): an invariant of every reachable state and the whole-history law added = ran + removed + pending, each added never removed one-shot command runs exactly once (every scheduled closure belongs to the live instance and has its table entry, every table entry has its closure scheduled under int(key) or the name, ids ascending and below the counter, the pickle well formed), hence no command runs for a dead instance or misses its entry; reload with events pending leaves the table unchanged and schedules exactly one entry per pending event. The id discipline is explicit: integer names and table ids are below schedule.counter in every reachable state, also right after _restoreEvents in a fresh process, hence an anonymous schedule.addEvent by any component never fails (ids_below_counter, anonymous_add_never_fails). The heap model also directs the search: HeapShapes.lean enumerates every insertion order of up to 8 distinct due times and removed position on which a removeEvent that restores the heap downwards only would break it; all of them (a seeded sample in the quick tier), and larger random heaps of that kind, are replayed on the real scheduler (removeEvent and rescheduleEvent) under the due-time-order oracle. Event functions raise exceptions of many kinds (OSError with an errno, KeyError(5), no / None / bytes / non-string arguments, multi-line and %-laden messages) with the production logging path running. The two layers are linked by a theorem (plugin_refines_core): the schedule inside the plugin model is the core scheduler driven through its API — every history of plugin operations corresponds to a sequence of core calls (addEvent, removeEvent, valid picks of run(), clock ticks, a new process at a restart) reaching a core state with the same due times, names, counter and clock, where the core invariant holds. Repeating events: _getNextRunIn puts a restored event strictly in the future on first_run + k * period (nextRunIn_on_grid); a running one is NOT kept on that grid, the periodic wrapper re-schedules from the moment it ran (recorded finding C18-repeat-drifts, witnessed on the live bot on every run). Both layers are tied to /repo by differential runs: seeded programs/operation sequences on the real Schedule object, and seeded command sequences (scheduler add/remind/remove/repeat/list, reload/unload/load Scheduler by an owner over IRC, restarts, clock advances) on a live bot with the virtual clock; the heap\'s choices are fed to the models, which check each is a minimum; the property statement is evaluated directly on the implementation (for the plugin: through the replies — every added, never removed command runs exactly once) to produce replays.',
+ 'level_text': 'Lean 4 theorems, kernel-checked, in two layers. (0) CPython heapq as used by the scheduler: heappush and heapify establish/keep the heap invariant, heappop returns an entry of minimal due time and leaves a heap that with it is a permutation of the old one, hence the choice of the heap is always a pick the scheduler model accepts. (1) A model of supybot.schedule.Schedule, for every sequence of addEvent/addPeriodicEvent/removeEvent/rescheduleEvent/run/reset calls and clock advances, every program of event functions that themselves add, remove, reschedule, add periodic events or raise while running, and every way the heap resolves ties: the name invariant (heap names = keys of events, no name twice) holds in every reachable state and therefore run() never raises; registrations = fired + removed + discarded + still scheduled as multisets with pairwise distinct registration ids (each event fires at most once, a removed event never fires, everything that fired was registered); nothing fires before its due time has passed, each iteration fires an entry of minimal due time, and when run() returns nothing due is left; a fired event carries the function and arguments of its registration, also after rescheduleEvent (repaired: it dropped them), which moves exactly that entry; a raising function ends only its own body; a periodic wrapper with occurrences left re-registers itself whether or not its function raised; threads: the placement of the lock is extracted and for every interleaving of critical sections (addEvent, removeEvent, iterations of run(), reset, by any threads) the invariant holds at every lock release, run() never raises and never fires early, registrations stay exactly-once (after three repairs of the lock placement). The driver loop: drivers.run() removes a driver whose run() raises; over every history of API calls and rounds of drivers.run() the Schedule driver is never removed and each round leaves nothing due. (2) A model of the Scheduler plugin on top (event table with its str(id)/name keys and the int-vs-str naming discipline, add/remind/remove/repeat/list, _flush and the pickle, die — repaired: it now takes the saved events out of the schedule —, _restoreEvents with kept ids and the already-scheduled test, load/unload/reload/restart, other plugins scheduling, run): an invariant of every reachable state and the whole-history law added = ran + removed + pending, each added never removed one-shot command runs exactly once (every scheduled closure belongs to the live instance and has its table entry, every table entry has its closure scheduled under int(key) or the name, ids ascending and below the counter, the pickle well formed), hence no command runs for a dead instance or misses its entry; reload with events pending leaves the table unchanged and schedules exactly one entry per pending event. The id discipline is explicit: integer names and table ids are below schedule.counter in every reachable state, also right after _restoreEvents in a fresh process, hence an anonymous schedule.addEvent by any component never fails (ids_below_counter, anonymous_add_never_fails). The heap model also directs the search: HeapShapes.lean enumerates every insertion order of up to 8 distinct due times and removed position on which a removeEvent that restores the heap downwards only would break it; all of them (a seeded sample in the quick tier), and larger random heaps of that kind, are replayed on the real scheduler (removeEvent and rescheduleEvent) under the due-time-order oracle. Event functions raise exceptions of many kinds (OSError with an errno, KeyError(5), no / None / bytes / non-string arguments, multi-line and %-laden messages) with the production logging path running. The two layers are linked by a theorem (plugin_refines_core): the schedule inside the plugin model is the core scheduler driven through its API — every history of plugin operations corresponds to a sequence of core calls (addEvent, removeEvent, valid picks of run(), clock ticks, a new process at a restart) reaching a core state with the same due times, names, counter and clock, where the core invariant holds. Repeating events: _getNextRunIn puts a restored event strictly in the future on first_run + k * period (nextRunIn_on_grid); a running one is NOT kept on that grid, the periodic wrapper re-schedules from the moment it ran (recorded finding C18-repeat-drifts, witnessed on the live bot on every run). The oracles judge behaviour only: what a periodic wrapper is for is known from the addPeriodicEvent call the harness made and from what the wrapper does when it runs (an occurrence one period later under its name, the probe function called with the same arguments, nothing more once the count ran out), not from the shape of its closure; the lock table follows private helper methods. Scheduler remove is checked by what leaves the schedule (exactly the event named; repeating events called #x next to x, 08 — repaired: remove ran int() over the name of a repeating event). Both layers are tied to /repo by differential runs: seeded programs/operation sequences on the real Schedule object, and seeded command sequences (scheduler add/remind/remove/repeat/list, reload/unload/load Scheduler by an owner over IRC, restarts, clock advances) on a live bot with the virtual clock; the heap\'s choices are fed to the models, which check each is a minimum; the property statement is evaluated directly on the implementation (for the plugin: through the replies — every added, never removed command runs exactly once) to produce replays.',
  'level_note': 'Trusted: Lean kernel; axioms propext/Classical.choice/Quot.sound only; heapq is modelled twice: as written in Lib/heapq.py (HeapHole.lean: _siftdown/_siftup moving a hole) and in swap form (Heap.lean), the two proved to compute the same lists (heapq_as_written); the literal transcription is compared after every call with the C module the bot uses and proved to keep the heap invariant and to pop a minimum, so the picks fed to the scheduler model are valid by theorem (heap_choice_is_valid_pick) and additionally checked per pop; str(int)/int(str) round trip for event ids (keys are modelled as Key.id n / Key.name s); the plugin model works on the abstract schedule justified by name_invariant (heap and events dict merged); the correspondence harnesses (generator quality bounds what they see); integer-valued virtual clock frozen during run(). Modelled: schedule.py completely except the lock; plugins/Scheduler/plugin.py: add, remind (as add), remove, repeat (--delay), list, _flush, die, _restoreEvents (incl. _getNextRunIn), the command/periodic closures with the instance that made them. Not modelled: unreadable or foreign pickles, old-format pickles without first_run/network, the text of the commands being replayed (C13/C14), non-Exception exceptions, event functions calling addPeriodicEvent(now=True) from inside a running event.',
  'technique': 'Lean 4 proof (induction over operation sequences and heap choices with invariants) + differential correspondence',
  'design_ref': 'DESIGN.md §6 C18',
@@ -159,6 +159,10 @@ class Impl(object):
         self.nreg = 0
         self.pending_call = None
         self.in_resched = None
+        self.wspec = {}          # id(wrapper) -> what periodic event it is an occurrence of
+        self.wobjs = []
+        self.creating = []       # addPeriodicEvent calls in progress
+        self.running = None      # the periodic wrapper that is running
         self.pops = 0
         self.nraise = sum(len(b) for b in P) * 7 + len(P)
         self.F = [self.make_fn(i) for i in range(len(P))]
@@ -208,7 +212,12 @@ class Impl(object):
             return self.resched(act[1], self.when(act[2]))
         if k == 'periodic':
             a, kw = split_args(act[4])
-            return S.addPeriodicEvent(self.F[act[1]], act[2], act[3], now=False, args=a, kwargs=kw, count=act[5])
+            self.creating.append({'idx': act[1], 'period': act[2], 'name': act[3], 'args': canon_args(a, kw),
+                                  'count': act[5], 'now': False, 'claimed': False})
+            try:
+                return S.addPeriodicEvent(self.F[act[1]], act[2], act[3], now=False, args=a, kwargs=kw, count=act[5])
+            finally:
+                self.creating.pop()
         if k == 'raise':
             self.tags.add('body-raises')
             self.nraise += 1
@@ -250,18 +259,72 @@ class Impl(object):
         S.removeEvent = removeEvent
 
     def describe_fn(self, f):
-        """-> ('P', idx) or ('W', idx, period, name, canonical args, count)"""
+        """-> ('P', idx) for a probe function, ('W', idx, period, name, canonical args, count left) for a
+        periodic wrapper the harness has seen being created (addPeriodicEvent is only ever called by the
+        harness: what the wrapper is for is known from that call and from what it does afterwards, not from
+        the private shape of its closure), ('?', ...) for anything else"""
         i = self.fn_idx.get(id(f))
         if i is not None:
             return ('P', i)
-        try:
-            cells = dict(zip(f.__code__.co_freevars, [c.cell_contents for c in f.__closure__]))
-            return ('W', self.fn_idx[id(cells['f'])], int(cells['t']), cells['name'],
-                    canon_args(cells['args'], cells['kwargs']), cells['count'])
-        except Exception as e:
-            return ('?', repr(f), repr(e))
+        w = self.wspec.get(id(f))
+        if w is not None:
+            return ('W', w['idx'], w['period'], w['name'], w['args'], w['left'])
+        return ('?', repr(f))
+
+    def attribute(self, name, f, t):
+        """a function that is no probe was registered: which periodic event is it an occurrence of?"""
+        if id(f) in self.wspec and self.in_resched and self.in_resched[0] == name:
+            return                                  # rescheduleEvent re-adds the same function
+        cr = self.creating[-1] if self.creating else None
+        if cr is not None and not cr['claimed'] and not cr['now']:
+            # addPeriodicEvent(now=False): the first occurrence
+            cr['claimed'] = True
+            self.wspec[id(f)] = {'idx': cr['idx'], 'period': cr['period'], 'name': cr['name'], 'args': cr['args'],
+                                 'left': cr['count']}
+            self.wobjs.append(f)
+            return
+        ctx = self.running
+        if ctx is not None and (id(f) not in self.wspec or ctx['fobj'] is None or ctx['fobj'] is f):
+            # registered while a periodic wrapper runs (and by none of the above): its next occurrence
+            self.wspec[id(f)] = {'idx': ctx['idx'], 'period': ctx['period'], 'name': ctx['name'], 'args': ctx['args'],
+                                 'left': ctx['left_after']}
+            self.wobjs.append(f)
+            ctx['regs'].append((name, int(t)))
+
+    def start_wrapper_run(self, spec, what, fobj):
+        """a periodic wrapper is about to run (popped by run(), or called by addPeriodicEvent(now=True))"""
+        self.finish_wrapper_run()
+        _, idx, period, name, args, count = spec
+        left_after = None if count is None else count - 1
+        self.running = {'idx': idx, 'period': period, 'name': name, 'args': args, 'left_after': left_after,
+                        'again': count is None or left_after > 0, 'when': self.clk.t, 'what': what, 'fobj': fobj,
+                        'regs': []}
+
+    def finish_wrapper_run(self):
+        """the wrapper has returned: judge what it did — one more occurrence, one period later, under its name
+        (any counter name when it has none), unless its count ran out"""
+        ctx, self.running = self.running, None
+        if ctx is None:
+            return
+        due = ctx['when'] + ctx['period']
+        good = [(n, t) for n, t in ctx['regs'] if t == due and (n == ctx['name'] if ctx['name'] is not None else isinstance(n, int))]
+        if ctx['again']:
+            if good:
+                self.tags.add('periodic-recurs')
+            elif ctx['regs']:
+                self.fail('%s re-scheduled itself as %r, not for %d under %r' % (ctx['what'], ctx['regs'], due, ctx['name']))
+            elif ctx['name'] is not None and ctx['name'] in self.regs:
+                self.tags.add('periodic-name-taken')      # its name was taken meanwhile: addEvent refused
+            else:
+                self.fail('%s (count left %r) did not re-schedule itself for %d' % (ctx['what'], ctx['left_after'], due))
+        else:
+            self.tags.add('periodic-count-exhausted')
+            if ctx['regs']:
+                self.fail('%s re-scheduled itself although its count ran out' % ctx['what'])
 
     def on_registered(self, name, f, t, args, kwargs):
+        if id(f) not in self.fn_idx:
+            self.attribute(name, f, t)
         reg = Reg()
         reg.t = int(t); reg.name = name; reg.args = canon_args(args, kwargs); reg.fn = self.describe_fn(f)
         reg.state = 'live'; self.nreg += 1; reg.n = self.nreg; reg.fobj = f
@@ -286,6 +349,7 @@ class Impl(object):
         t, name = item[0], item[1]
         self.picks.append(name)
         now = self.clk.t
+        self.finish_wrapper_run()
         reg = self.regs.pop(name, None)
         if reg is None:
             self.fail('run() fired %r which is not a scheduled event (removed or already fired)' % (name,))
@@ -307,34 +371,7 @@ class Impl(object):
             self.pending_call = (reg.fn[1], reg.args, 'event %r' % (name,))
         elif reg.fn[0] == 'W':
             self.pending_call = (reg.fn[1], reg.fn[4], 'periodic event %r' % (name,))
-            self.expect_recur(reg.fn, 'periodic event %r' % (name,), reg.fobj)
-
-    def expect_recur(self, fn, what, fobj=None):
-        """after this wrapper ran: a new occurrence must be registered unless its count ran out"""
-        _, idx, period, name, args, count = fn
-        again = count is None or count - 1 > 0
-        self.recur_checks.append((again, idx, period, name, args, None if count is None else count - 1, self.clk.t, what, fobj))
-
-    def check_recur(self):
-        for again, idx, period, name, args, count, when, what, fobj in self.recur_checks:
-            want_fn = ('W', idx, period, name, args, count)
-            found = [r for r in self.all_new_regs if r.fn == want_fn and r.t == when + period and (name is None or r.name == name)
-                     and (fobj is None or r.fobj is fobj)]
-            if fobj is None and not again:
-                found = []      # addPeriodicEvent(now=True): the wrapper object is not known; only the positive check
-            conflict = name is not None and (name in self.names_at_start or
-                                             any(r.name == name and r.fn != want_fn for r in self.all_new_regs))
-            if again and not found:
-                if conflict:
-                    self.tags.add('periodic-name-taken')
-                else:
-                    self.fail('%s (count left %r) did not re-schedule itself for %d' % (what, count, when + period))
-            if again and found:
-                self.tags.add('periodic-recurs')
-            if not again and found:
-                self.fail('%s re-scheduled itself although its count ran out' % what)
-            if not again:
-                self.tags.add('periodic-count-exhausted')
+            self.start_wrapper_run(reg.fn, 'periodic event %r' % (name,), reg.fobj)
 
     # ---- state dump
     def state(self):
@@ -373,7 +410,8 @@ def _do(self, op):
         return 'ok\t-\t' + self.state()
     S = self.S
     del self.log[:]
-    self.recur_checks = []
+    self.running = None
+    del self.creating[:]
     self.pending_call = None
     nreg0 = self.nreg
     self.all_new_regs = []
@@ -403,8 +441,13 @@ def _do(self, op):
                 if now_flag:
                     self.tags.add('periodic-now')
                     self.pending_call = (fn, canon_args(a, kw), 'addPeriodicEvent(now=True)')
-                    self.expect_recur(('W', fn, period, name, canon_args(a, kw), count), 'addPeriodicEvent(now=True)')
-                r = S.addPeriodicEvent(self.F[fn], period, name, now=bool(now_flag), args=a, kwargs=kw, count=count)
+                    self.start_wrapper_run(('W', fn, period, name, canon_args(a, kw), count), 'addPeriodicEvent(now=True)', None)
+                self.creating.append({'idx': fn, 'period': period, 'name': name, 'args': canon_args(a, kw),
+                                      'count': count, 'now': bool(now_flag), 'claimed': False})
+                try:
+                    r = S.addPeriodicEvent(self.F[fn], period, name, now=bool(now_flag), args=a, kwargs=kw, count=count)
+                finally:
+                    self.creating.pop()
                 ret = 'ok:' + enc_name(r)
             elif k == 'run':
                 del self.picks[:]
@@ -456,7 +499,7 @@ def _do(self, op):
                     self.fail('%s raised %s: %s' % (k, type(e).__name__, e))
     finally:
         self.on_registered = orig_on_registered
-    self.check_recur()
+    self.finish_wrapper_run()
     self.consistency()
     logs = ';'.join('%d/%d/%s' % (t, i, wire.enc_list(a)) for t, i, a in self.log) or '-'
     return '%s\t%s\t%s' % (ret, logs, self.state())
